@@ -110,6 +110,9 @@ func drawUTF8ish(t *rapid.T, label string, max int) []byte {
 	return b
 }
 
+const sigUTF8Accepted = "C18/utf8reader-reset-keeps-accepted"
+const sigExtFinalFragment = "C18/reader-extension-error-on-final-fragment-stays-fragmented"
+
 type u8res struct {
 	N        int
 	Err      string
@@ -135,8 +138,11 @@ func runUTF8(u *wsutil.UTF8Reader, bufs []int) []u8res {
 		default:
 			r.Err = err.Error()
 		}
-		if err != wsutil.ErrInvalidUTF8 {
+		if err != wsutil.ErrInvalidUTF8 || !hx.Known(sigUTF8Accepted) {
+			// after every read that follows the reset, a rejecting one included
 			r.Accepted = u.Accepted()
+		} else {
+			hx.Exclude(sigUTF8Accepted)
 		}
 		out = append(out, r)
 		if err != nil {
@@ -425,10 +431,14 @@ func (in rdInst) consume(m rdMode, end int) rdUnit {
 	}
 	h, err := in.r.NextFrame()
 	if err == errExt {
-		// A receive extension rejected the first frame of the unit (generated
-		// only for units that consist of that one frame). The application drops
-		// it with Discard(); the next unit starts after the frame's payload.
-		in.r.Discard()
+		// A receive extension rejected the first frame of the unit. The
+		// application drops the message with Discard(); the next unit starts
+		// where this one ends on the wire.
+		if derr := in.r.Discard(); derr != nil {
+			u.HdrErr, u.Stop = "extension error, Discard() failed", true
+			hx.Class("open/discard-reported-failure-after-extension-or-callback-error")
+			return u
+		}
 		u.HdrErr, u.CbErr = "extension error, Discard()", true
 		return u
 	}
@@ -450,8 +460,13 @@ func (in rdInst) consume(m rdMode, end int) rdUnit {
 			if err == errCont || err == errExt {
 				// The application gives the message up. What Discard returns for
 				// it is not compared; what matters is the next message.
-				in.r.Discard()
 				u.Reads = append(u.Reads, fmt.Sprintf("%d/callback error", n))
+				if derr := in.r.Discard(); derr != nil {
+					// the reader itself says the message was not discarded
+					u.End, u.Stop = "callback error, Discard() failed", true
+					hx.Class("open/discard-reported-failure-after-extension-or-callback-error")
+					return true
+				}
 				u.End, u.CbErr = "callback error, Discard()", true
 				return true
 			}
@@ -561,16 +576,19 @@ func TestReaderConsecutiveMessages(t *testing.T) {
 		frag := false
 		for _, f := range frames {
 			e := f.Encode()
-			// Frames a receive extension may reject with the reader still ending
-			// up at the next message after Discard() on the unchanged tree: a
-			// whole-unit first frame (final data frame or control frame outside a
-			// message), a non-final continuation, a control frame inside a message —
-			// with a non-empty payload. Left out: the non-final first frame
-			// (Discard stops in front of the continuations) and the final
-			// continuation (the reader stays "fragmented" and Discard eats the
-			// next message's header).
+			// Frames a receive extension may reject (non-empty payload): any first
+			// frame, continuation or control frame. After Discard() returned nil the
+			// next unit must be read as by a new Reader at the true end of this one.
 			ctl := ref.IsControl(f.H.Op)
-			if len(f.Payload) > 0 && ((!frag && f.H.Fin) || (frag && (ctl || !f.H.Fin))) {
+			finalCont := frag && !ctl && f.H.Fin
+			if finalCont && hx.Known(sigExtFinalFragment) {
+				finalCont = false
+			}
+			// a refused non-final first frame leaves the reader fragmented (it records
+			// the state before returning the extension's error), so Discard() runs
+			// through the continuations as well
+			firstNonFinal := !frag && !ctl && !f.H.Fin
+			if len(f.Payload) > 0 && ((!frag && f.H.Fin) || (frag && (ctl || !f.H.Fin)) || finalCont || firstNonFinal) {
 				rejectable = append(rejectable, off+len(e)-len(f.Payload))
 			}
 			if !ctl {
@@ -681,4 +699,57 @@ func TestReaderConsecutiveMessages(t *testing.T) {
 
 func desc2(f func() map[string]interface{}) func() interface{} {
 	return func() interface{} { return f() }
+}
+
+// UTF8Reader.Reset leaves the count of the last Read before the reset in place.
+func probeUTF8Accepted(t *testing.T) {
+	u := wsutil.NewUTF8Reader(bytes.NewReader([]byte("ab")))
+	u.Read(make([]byte, 2))
+	before := u.Accepted()
+	u.Reset(bytes.NewReader([]byte{0xff}))
+	n, err := u.Read(make([]byte, 1))
+	got := u.Accepted()
+	fresh := wsutil.NewUTF8Reader(bytes.NewReader([]byte{0xff}))
+	fresh.Read(make([]byte, 1))
+	hx.Eval()
+	hx.Probe(t, sigUTF8Accepted, "wsutil.UTF8Reader: after Reset, a first Read that rejects its input leaves Accepted() at the value of the last Read before the reset (2), a new reader reports 0", got != fresh.Accepted(),
+		map[string]interface{}{"accepted_before_reset": before, "read_after_reset": fmt.Sprintf("%d/%v", n, err), "accepted_after": got, "fresh_reader_accepted": fresh.Accepted()})
+}
+
+// A receive extension rejects the FINAL fragment of a message; the reader stays
+// "fragmented", so Discard() goes on into the next message.
+func probeExtFinalFragment(t *testing.T) {
+	frames := []ref.Frame{
+		{H: ref.Header{Op: ref.OpText}, Payload: []byte("a")},
+		{H: ref.Header{Op: ref.OpCont, Fin: true}, Payload: []byte("b")},
+		{H: ref.Header{Op: ref.OpBinary, Fin: true}, Payload: []byte("next")},
+	}
+	wire := ref.EncodeAll(frames)
+	rejectAt := len(frames[0].Encode()) + 2 // payload offset of the final fragment
+	src := tx.NewSrc(wire, nil)
+	r := &wsutil.Reader{Source: src, State: ws.StateClientSide, SkipHeaderCheck: true}
+	r.Extensions = []wsutil.RecvExtension{wsutil.RecvExtensionFunc(func(h ws.Header) (ws.Header, error) {
+		if src.Pos == rejectAt {
+			return h, errExt
+		}
+		return h, nil
+	})}
+	_, err0 := r.NextFrame()
+	buf := make([]byte, 8)
+	n1, err1 := r.Read(buf) // "a", end of the first fragment
+	_, err2 := r.Read(buf)  // next fragment: rejected
+	derr := r.Discard()
+	h, err3 := r.NextFrame()
+	var got []byte
+	if err3 == nil {
+		got, _ = io.ReadAll(r)
+	}
+	hx.Eval()
+	if err0 != nil || n1 != 1 || err1 != nil || err2 != errExt {
+		hx.Failf(t, nil, "probe set-up: %v %d %v %v", err0, n1, err1, err2)
+		return
+	}
+	present := derr == nil && (err3 != nil || h.OpCode != ws.OpBinary || string(got) != "next")
+	hx.Probe(t, sigExtFinalFragment, "wsutil.Reader (SkipHeaderCheck): a receive extension rejects the final fragment of a message, the reader stays fragmented; Discard() returns nil but has also swallowed the following message, so the next message is not read as a new Reader at that byte reads it", present,
+		map[string]interface{}{"frames": ref.Describe(frames), "discard_err": fmt.Sprint(derr), "next_frame": fmt.Sprintf("%+v / %v", h, err3), "next_payload": string(got), "want": "binary message \"next\""})
 }
